@@ -5,7 +5,7 @@
 EXTENDS MCBase
 
 Strings == IF Thorough
-           THEN {A("k1"), [key |-> "k1", sp |-> "0x"], A("k2"), A("k3"), [key |-> "k4", sp |-> "UP"], A("junk1")}
+           THEN {A("k1"), [key |-> "k1", sp |-> "0x"], A("k2"), [key |-> "k3", sp |-> "odd"], [key |-> "k4", sp |-> "UP"], A("junk1")}
            ELSE {A("k1"), [key |-> "k1", sp |-> "0x"], A("k2"), A("k3")}
 Invalid == {[key |-> "none", sp |-> "empty"], [key |-> "none", sp |-> "0xonly"], [key |-> "none", sp |-> "nothex"]}
 
